@@ -6,7 +6,8 @@ CONSTANTS
   Peek = 0
   MaxTimeouts = 2
   Priors = {0, 1, 2}
+  DispatchBound = 2
   Defects = {}
 SPECIFICATION Spec
-INVARIANTS InOrderOnce NoEarly Prompt Consumed PrefaceOnce NoError NoByteLost SameForEveryCut EmitCase
+INVARIANTS InOrderOnce NoEarly Prompt Consumed PrefaceOnce NoError NoByteLost LoopUntilDry SameForEveryCut EmitCase
 CHECK_DEADLOCK FALSE
